@@ -317,3 +317,47 @@ package sqlite
 //@        nth(txExec, 2, 2) == "\n\t\tCREATE TABLE IF NOT EXISTS subscription_positions (\n\t\t\tsubscription_id TEXT PRIMARY KEY,\n\t\t\tposition INTEGER NOT NULL,\n\t\t\tupdated_at DATETIME NOT NULL DEFAULT CURRENT_TIMESTAMP\n\t\t)"
 //@   ensures [C10.schema.atomic] err != nil ==> cnt(txCommit) == 0 || lastres(txCommit, Iface) != nil
 //@   ensures [C10.schema.rollback] cnt(txExec) >= 1 && err != nil ==> cnt(txRollback) == 1
+
+// ---------------------------------------------------------------- constructor (C03: the pool is not capped)
+// ReadStream keeps its cursor - and with it one pooled connection - open while it yields
+// rows to the replay callback; the callback (and SubscribeWithReplay itself) call the store
+// again (SaveOffset, Append).  With a pool capped at one connection those calls wait for the
+// connection the cursor holds, forever.  database/sql's default is an unlimited pool
+// (poolLimit 0, assumed for the value an opener returns); the store must leave it that way.
+//@ ghostheap poolLimit Int Int internal
+//@ callback Option(opt, cfg)
+//@   effect fields cfg busyTimeout autoMigrate logger metricsHook streamBatchSize
+//@ callback func(driverName string, dataSourceName string) (*sql.DB, error)(open, driver, dsn)
+//@   effect pure
+//@   ensures result1 == nil ==> result0 != nil && poolLimit(result0) == 0
+//@ func sql.(*DB).Exec(db, query, args)
+//@   trusted
+//@   effect pure
+//@ func sql.(*DB).ExecContext(db, ctx, query, args)
+//@   trusted
+//@   effect pure
+//@ func sql.(*DB).QueryRowContext(db, ctx, query, args)
+//@   trusted
+//@   effect pure
+//@   ensures result != nil
+//@ func sql.(*DB).SetMaxOpenConns(db, n)
+//@   trusted
+//@   effect pure
+//@   modifies poolLimit(db)
+//@   ensures poolLimit(db) == n
+//@ func applyPragmas
+//@   props C10 C03
+//@   requires db != nil && cfg != nil
+//@   loop 1 invariant [idx] rangeindex < len(pragmas) && -1 <= rangeindex
+//@   ensures [C03.sqlite.pragmas.pool] poolLimit(db) == old(poolLimit(db))
+//@ func migrate
+//@   props C10 C03
+//@   requires db != nil && ctx != nil
+//@   ensures [C03.sqlite.migrate.pool] poolLimit(db) == old(poolLimit(db))
+//@ func New
+//@   props C10 C03
+//@   requires forall k int :: {opts[k]} 0 <= k && k < len(opts) ==> opts[k] != nil
+//@   requires dbOpener != nil
+//@   loop 1 invariant [idx] rangeindex < len(opts) && -1 <= rangeindex
+//@   loop 1 invariant [cfg] cfg != nil && fresh(cfg)
+//@   ensures [C03.sqlite.pool] result1 == nil ==> result0 != nil && result0.db != nil && poolLimit(result0.db) == 0
